@@ -24,7 +24,9 @@ pub open spec fn ops_of(infos: Seq<StoreInfo>) -> Seq<StoreOp> { infos.map_value
 impl Storage {
     #[verifier::external_body]
     pub fn flush_infos(&mut self, infos: &[StoreInfo]) -> (r: Result<(), HypercoreError>)
-        requires !old(self).failed@, forall|i: int| 0 <= i < infos@.len() ==> flushable(#[trigger] infos@[i])
+        requires !old(self).failed@, forall|i: int| 0 <= i < infos@.len() ==> flushable(#[trigger] infos@[i]),
+            // unit `storage` proves flush_infos for batches that address ONE store: every caller must comply
+            forall|i: int| 0 <= i < infos@.len() ==> (#[trigger] infos@[i]).store == infos@[0].store
         ensures
             final(self).reads@ == old(self).reads@,
             r is Ok ==> !final(self).failed@ && final(self).journal@ == old(self).journal@ + ops_of(infos@),
@@ -54,7 +56,8 @@ impl Storage {
 
     #[verifier::external_body]
     pub fn read_infos(&mut self, info_instructions: &[StoreInfoInstruction]) -> (r: Result<Box<[StoreInfo]>, HypercoreError>)
-        requires !old(self).failed@
+        requires !old(self).failed@,
+            forall|i: int| 0 <= i < info_instructions@.len() ==> (#[trigger] info_instructions@[i]).store == info_instructions@[0].store
         ensures
             final(self).journal@ == old(self).journal@,
             r is Ok ==> !final(self).failed@ && r->Ok_0@.len() == info_instructions@.len()
@@ -64,7 +67,8 @@ impl Storage {
 
     #[verifier::external_body]
     pub fn read_infos_to_vec(&mut self, info_instructions: &[StoreInfoInstruction]) -> (r: Result<Vec<StoreInfo>, HypercoreError>)
-        requires !old(self).failed@
+        requires !old(self).failed@,
+            forall|i: int| 0 <= i < info_instructions@.len() ==> (#[trigger] info_instructions@[i]).store == info_instructions@[0].store
         ensures
             final(self).journal@ == old(self).journal@,
             r is Ok ==> !final(self).failed@ && r->Ok_0@.len() == info_instructions@.len()
